@@ -88,6 +88,7 @@ def run(ctx, rep):
                     rep.problem("dual", f"adaptation state {attr} differs between the two runs", where, "dual:adaptation", True, None, None, "C05_dual")
     _loop.run_all(ctx, rep, "C05", predicate, 24, 200, force=dict(minimization=True))
     parallel_pairs(ctx, rep)
+    restart_pairs(ctx, rep)
     # objectives that are undefined (NaN) on part of the search space: the duality is about ALL objectives
     # (implementation vs implementation only: the exact loop model has no NaN)
     _loop.run_all(ctx, rep, "C05", predicate, 3, 12, model=False,
@@ -116,6 +117,38 @@ def parallel_pairs(ctx, rep):
         if d or not all(L.same(fa[k], fb[k]) for k in fa):
             rep.problem("dual", f"{kind} with n_jobs=2: minimising f and maximising -f differ ({d or 'reported fittest'})", case, "dual:parallel", True,
                         None, None, "C05_dual")
+
+
+def restart_pairs(ctx, rep):
+    """fit() called again on the same optimizer (a restart that keeps the best-so-far record): minimising f and maximising -f still coincide,
+    run after run — the record carried into the second run is in the normalised orientation in both"""
+    import thefittest.optimizers as O
+    import c16_objectives as CO
+    plans = [("GeneticAlgorithm", dict(str_len=7), CO.onemax, CO.neg_onemax), ("DifferentialEvolution", dict(left_border=-2.0, right_border=2.0, num_variables=2), CO.sphere, CO.neg_sphere),
+             ("SHADE", dict(left_border=-2.0, right_border=2.0, num_variables=2), CO.weighted, CO.neg_weighted), ("SHAGA", dict(str_len=7), CO.weighted, CO.neg_weighted),
+             ("jDE", dict(left_border=-2.0, right_border=2.0, num_variables=2), CO.sphere, CO.neg_sphere), ("SelfCGA", dict(str_len=7), CO.onemax, CO.neg_onemax)]
+    for kind, kw, f, nf in plans[: ctx.pick(6, 6)]:
+        seed, pop = ctx.rng.randrange(1 << 30), ctx.rng.choice([8, 9])
+        elit = ctx.rng.random() < 0.7
+        runs = []
+        for mini, obj in ((True, f), (False, nf)):
+            opt = getattr(O, kind)(obj, iters=3, pop_size=pop, keep_history=True, random_state=seed, minimization=mini, elitism=elit, no_increase_num=2, **kw)
+            opt.fit()
+            first = dict(opt.get_fittest())
+            opt.fit()
+            runs.append((opt, first))
+            rep.traces += 2
+        rep.count("restart-dual", (kind, seed))
+        (oa, fa1), (ob, fb1) = runs
+        case = dict(kind=kind, random_state=seed, pop_size=pop, elitism=elit, fits=2)
+        d = same_stats(oa.get_stats(), ob.get_stats())
+        fa, fb = oa.get_fittest(), ob.get_fittest()
+        if d or not all(L.same(fa[k], fb[k]) for k in fa) or not all(L.same(fa1[k], fb1[k]) for k in fa1) or oa._thefittest._no_update_counter != ob._thefittest._no_update_counter:
+            rep.problem("dual", f"{kind} fitted twice: minimising f and maximising -f differ ({d or 'reported fittest / stagnation counter'})", case, "dual:restart", True,
+                        float(fa["fitness"]), float(fb["fitness"]), "C05_dual")
+        if float(fa["fitness"]) < float(fa1["fitness"]):
+            rep.problem("dual", f"{kind} fitted twice under minimisation: the best-so-far record got worse across the restart", case, "dual:restart", True,
+                        float(fa["fitness"]), float(fa1["fitness"]), "C05_dual")
 
 
 def replay(ctx, rp):
